@@ -2,7 +2,11 @@ TABLE = " ABCDEFGHIJKLMNOPQRSTUVWXYZ$.%0123456789"
 
 
 def encode_char(char):
-    return TABLE.index(char)
+    # Letters of either case; str.upper() alone would also let in characters
+    # such as 'ſ' and 'ı', whose upper-case forms are ASCII letters
+    if len(char) != 1 or not char.isascii():
+        raise ValueError(f"'{char}' is not a radix-50 character")
+    return TABLE.index(char.upper())
 
 
 def pack_to_int(string):
